@@ -26,6 +26,14 @@ def opOfJ (j : J) : Except String Op := do
   else if k = "sweep" then pure (.sweep (← j.nats "order"))
   else .error s!"unknown op kind {k}"
 
+def topOfJ (j : J) : Except String TOp := do
+  let k ← j.string "k"
+  if k = "wait" then pure (.wait (← j.nat "dt") (← j.nats "order"))
+  else if k = "up" then pure (.up (← j.nat "dpid") (← j.nats "ports"))
+  else if k = "down" then pure (.down (← j.nat "dpid") (← j.nats "order"))
+  else if k = "probe" then pure (.probe (← linkOfJ (← j.get "l")) (← j.nats "order"))
+  else .error s!"unknown timed op kind {k}"
+
 def outToJ (o : Out) : J :=
   J.mk [("events", J.arr (o.events.map fun (a, l) => J.arr [J.bool a, linkToJ l])),
         ("mods", J.arr (o.mods.map modToJ)), ("errs", J.ofNat o.errs)]
@@ -74,6 +82,15 @@ def handle1 (j : J) : Except String J := do
     pure (J.mk [("outs", J.arr (outs.map outToJ)),
                 ("adjacency", J.arr (s.adj.map fun (l, t) => J.arr [linkToJ l, J.ofNat (t - Discovery.init.now)])),
                 ("prev", J.arr (s.prev.map fun ((d, p), b) => J.arr [J.ofNat d, J.ofNat p, J.bool b]))])
+  else if op = "timed" then
+    -- a timer-driven history: the expiry sweeps are not ops, they fire while time passes (`wait`)
+    let vj ← j.get "variant"
+    let v : Variant := ⟨← vj.boolean "popFirst", ← vj.boolean "skip", ← vj.boolean "visitAll"⟩
+    let ops ← (← j.array "ops").mapM topOfJ
+    let (ts, outs) := runT v Discovery.tinit ops
+    pure (J.mk [("outs", J.arr (outs.map outToJ)),
+                ("adjacency", J.arr (ts.d.adj.map fun (l, t) => J.arr [linkToJ l, J.ofNat (t - Discovery.init.now)])),
+                ("timer", match ts.next with | some n => J.ofNat (n - Discovery.init.now) | none => J.str "stopped")])
   else if op = "pack" then
     pure (J.mk [("frame", J.ofBytes (probeFrame (← j.nat "dpid") (← j.nat "port") (← j.bytes "hw") (← j.nat "ttl")))])
   else if op = "recover" then
